@@ -246,7 +246,13 @@ inline int harness_main(int argc, char** argv, Registry& reg) {
   // case is the smallest one found so far.
   double first_fail_at = -1;
   auto run_one = [&](Chooser& ch, bool is_replay) {
-    if (first_fail_at >= 0 && wall() - first_fail_at > shrink_budget) return;
+    if (first_fail_at >= 0 && wall() - first_fail_at > shrink_budget) {
+      // leave rapidcheck's shrink loop for good (skipping candidates one by one is quadratic for long choice sequences)
+      st.notes.push_back("shrinking stopped after its time budget; the saved case is the smallest failing one found so far");
+      write_stats(out + ".stats.json", st, prop, wall(), "fail", failmsg);
+      fflush(nullptr);
+      _exit(1);
+    }
     Case cs{ch, st, size};
     cs.replay = is_replay;
     cs.scratch = scratch;
